@@ -3,7 +3,7 @@
 Engine E1 (smallscope).  (a) every definition graph of the bounded families in `_levels`
 (jv/c15_gen.py: nodes, atoms (i, j, kind), 10 edge kinds, <= 2 kinds per ordered pair, self
 loops) rendered to a program; every query at every use.  (b) scaling families for
-n in {1, 2, 4, ..., 64}.
+n in {1, 2, 4, ..., 64} (chains, trees, diamonds) and rings of n <= 40 nodes per edge kind.
 
 Oracle: no exception of any kind leaves a query, no worker dies, and the *work* of every single
 query (fresh Script, i.e. cold inference state) stays under a budget.  Work = number of Python
@@ -24,41 +24,55 @@ from .. import c15_gen as gen
 ID = 'C15'
 BUDGET = {'quick': 1200, 'thorough': 5400}
 
-# ---- calibration (unchanged tree, commit 7c19a04, configuration `stubs`; see _calibration_note)
-# maximum work of one query observed over family (a), both tiers, per query method
+# ---- calibration.  Measured with `JV_C15_CALIBRATE=1 bin/check C15 [--tier thorough]` (counts only,
+# no budget) on commit 7c19a04 + proposed_fixes/C15-import-cycle-recursion.diff, configuration
+# `stubs`.  On the unpatched tree the same programs give the same numbers except that the
+# import-cycle queries die with RecursionError after <= 13k steps.  Every number is a maximum over
+# an enumerated (hence reproducible) set; the run prints the constants to paste here.
+# maximum work of one query observed over family (a) of the tier, per query method
 CAL_MAX_STEPS = {           # {tier: {method: steps}}
     'quick': {'complete': 666009, 'get_references': 107502, 'get_signatures': 45234,
               'goto': 32066, 'help': 31572, 'infer': 664825},
+    # over the quick levels and the thorough levels with the largest programs (8- and up to
+    # 9-arc shapes, base-definition variants); see the report for what was left to the 20x margin
+    'thorough': {'complete': 1327993, 'get_references': 1067458, 'get_signatures': 84582,
+                 'goto': 120198, 'help': 120209, 'infer': 1407856},
 }
-CAL_MAX_INFERS = {'quick': 2201}         # {tier: count}; over (a) and (b)
+# maximum of sum(inferred_element_counts.values()) after one query, over (a) and (b)
+CAL_MAX_INFERS = {'quick': 2252, 'thorough': 2252}
 # maximum work of one query at the largest n (64; rings: 40) observed per scaling family
 CAL_STEPS64 = {
-    'assign_chain': 40509, 'assign_diamonds': 47289, 'attr_diamonds': 65955, 'call_chain': 4344,
-    'call_tree': 45831, 'decorator_chain': 41311, 'diamonds': 417156, 'import_chain': 43998,
-    'inherit_chain': 74688, 'instance_tree': 111264, 'nested_closures': 5004,
-    'nested_containers': 46009, 'ring_A': 28634, 'ring_C': 49517, 'ring_D': 50971,
-    'ring_G': 28131, 'ring_H': 315316, 'ring_I': 24903, 'ring_L': 118412, 'ring_P': 89850,
-    'ring_T': 92018, 'ring_X': 84274}
-# maximum work of one query over all n observed per scaling family (hard-stop budget)
+    'assign_chain': 40513, 'assign_diamonds': 47289, 'attr_diamonds': 65951, 'call_chain': 4344,
+    'call_tree': 45831, 'chain_A': 111567, 'chain_C': 59816, 'chain_D': 70362, 'chain_G': 108938,
+    'chain_H': 498511, 'chain_I': 101975, 'chain_L': 128694, 'chain_P': 149565,
+    'chain_T': 161849, 'chain_X': 136200, 'decorator_chain': 41303, 'diamonds': 417152,
+    'import_chain': 43996, 'inherit_chain': 74685, 'instance_tree': 111266,
+    'nested_closures': 5004, 'nested_containers': 45993, 'ring_A': 28626, 'ring_C': 49525,
+    'ring_D': 50971, 'ring_G': 28131, 'ring_H': 315320, 'ring_I': 24903, 'ring_L': 118416,
+    'ring_P': 89848, 'ring_T': 92022, 'ring_X': 84310}
+# maximum work of one query over all n observed per scaling family (hard-stop budget of (b))
 CAL_STEPS_FAM = {
-    'assign_chain': 40509, 'assign_diamonds': 47289, 'attr_diamonds': 65955, 'call_chain': 35546,
-    'call_tree': 86978, 'decorator_chain': 41311, 'diamonds': 417156, 'import_chain': 43998,
-    'inherit_chain': 74688, 'instance_tree': 364530, 'nested_closures': 36685,
-    'nested_containers': 46009, 'ring_A': 28634, 'ring_C': 49517, 'ring_D': 50971,
-    'ring_G': 28131, 'ring_H': 315316, 'ring_I': 24903, 'ring_L': 118412, 'ring_P': 89850,
-    'ring_T': 92018, 'ring_X': 84274}
+    'assign_chain': 40513, 'assign_diamonds': 47289, 'attr_diamonds': 65951, 'call_chain': 35560,
+    'call_tree': 86990, 'chain_A': 111567, 'chain_C': 59816, 'chain_D': 70362, 'chain_G': 108938,
+    'chain_H': 498511, 'chain_I': 101975, 'chain_L': 128694, 'chain_P': 149565,
+    'chain_T': 161849, 'chain_X': 136200, 'decorator_chain': 41323, 'diamonds': 417152,
+    'import_chain': 43996, 'inherit_chain': 74685, 'instance_tree': 364528,
+    'nested_closures': 36685, 'nested_containers': 45993, 'ring_A': 28626, 'ring_C': 49525,
+    'ring_D': 50971, 'ring_G': 28131, 'ring_H': 315320, 'ring_I': 24903, 'ring_L': 118416,
+    'ring_P': 89848, 'ring_T': 92022, 'ring_X': 84310}
 FACTOR = 20
 GROWTH = 8              # steps(2n) <= GROWTH * steps(n) + GROWTH_C   for n >= 8
 GROWTH_C = 5000
 NS = [1, 2, 4, 8, 16, 32, 64]
 NS_RING = [1, 2, 4, 8, 16, 32, 40]   # the property speaks of cyclic graphs of up to 40 nodes
+WATCHDOG_S = 120          # CPU seconds of the worker per program (ITIMER_VIRTUAL: load independent)
+WATCHDOG_WALL_S = 1800    # last resort for a worker blocked without using CPU
+STOP_AFTER_VIOLATIONS = 1     # stop after the first stage that produced an unlisted violation
 
 
 def ns_of(family):
     return NS_RING if family.startswith('ring_') else NS
-WATCHDOG_S = 120          # CPU seconds of the worker per program (ITIMER_VIRTUAL: load independent)
-WATCHDOG_WALL_S = 1800    # last resort for a worker blocked without using CPU
-STOP_AFTER_VIOLATIONS = 1     # stop after the first stage that produced an unlisted violation
+
 
 METHODS = ['infer', 'goto', 'help', 'get_references', 'get_signatures', 'complete']
 
@@ -376,8 +390,9 @@ def _work(task):
                 max_infers = max(max_infers, r['infers'])
                 if r['infers'] > r['steps'] and counter_broken is None:
                     counter_broken = [label, r['steps'], r['infers']]
-                if r['n']:
-                    nonempty += 1
+                if r['n'] and method == 'infer' and col > 0 \
+                        and code.split('\n')[line - 1][col - 1:col] == '.':
+                    nonempty += 1      # a payload attribute (`.a`, `.b`, `.x`) resolved
                 classes.add('%s/%s/%s/2^%d' % (layout, method, 'some' if r['n'] else 'none',
                                                max(r['steps'], 1).bit_length()))
                 if task['kind'] == 'scale':
@@ -405,6 +420,9 @@ def _work(task):
         signal.setitimer(signal.ITIMER_VIRTUAL, 0)
         signal.alarm(0)
         _C.limit = None
+        if layout == 'mods' and not os.environ.get('JV_KEEP_SCRATCH'):
+            import shutil
+            shutil.rmtree(d, ignore_errors=True)
     files_out = files if (fails or only or not task.get('lean')) else None
     return {'fails': fails, 'nq': nq, 'npos': len(npos), 'per_method': per_method,
             'max_infers': max_infers, 'classes': sorted(classes), 'layout': layout,
@@ -742,7 +760,7 @@ def run(ctx):
         'levels_completed': done_levels, 'exhaustive': exhaustive, 'samples': samples[:6],
         'edge_kinds': gen.KIND_NAMES,
         'programs_per_edge_kind': kind_hits,
-        'programs_per_edge_kind_with_some_nonempty_answer': kind_live,
+        'programs_per_edge_kind_in_which_some_payload_attribute_resolved': kind_live,
         'programs_per_layout': layouts,
         'programs_in_which_a_give_up_mechanism_fired': warn_programs,
         'budget_steps_per_method': {m: budget_for(m) for m in METHODS} if CAL_MAX_STEPS else None,
